@@ -611,6 +611,8 @@ class NumpyModel:
             if it.ty in ('ndarray', 'list') or it.dtype == 'bool':
                 fancy = True
         out = base.only('ty', 'geo', 'idx', 'mono', 'prov', 'store', 'cols', 'colvals', 'taint', 'dtype', 'enc', 'origin')
+        if all(i.ty == 'slice' for i in items):
+            out = out.w(linspace=base.linspace, lin_n=base.lin_n, arange=base.arange, sorted=base.sorted)
         out = out.w(axes=new_axes, axis=axis_tag, at=base.at if (base.idx is not None and base.idx[0] == 'FRAME') else None)
         if fancy:
             out = out.w(store='fresh', fresh=True)
